@@ -131,6 +131,18 @@ impl LengthDelimitedCodec {
             if self.compress_enabled && serialized.len() >= self.compression.min_size {
                 let compressed = compression::compress(&serialized, self.compression.method);
                 if compression::is_beneficial(serialized.len(), compressed.len()) {
+                    // The receiver bounds the decompressed payload (`decompress` and
+                    // `decode_payload_v2`), not the frame: a message it would refuse
+                    // after decompressing must not be sent just because it compresses well.
+                    let limit = self
+                        .max_frame_length
+                        .min(compression::MAX_DECOMPRESSED_SIZE);
+                    if serialized.len() > limit {
+                        return Err(TcpError::MessageTooLarge {
+                            size: serialized.len(),
+                            max_size: limit,
+                        });
+                    }
                     (
                         compressed,
                         compression::frame_flags(self.compression.method),
